@@ -109,7 +109,10 @@ class SerializedFileBufferedCollection(FileBufferedCollection):
                     # multiple collections pointing to the same file, etc).
                     return
                 else:
-                    blob = self._encode(self._data)
+                    # Other collections bound to the same file may have modified
+                    # the buffered data, so the buffered contents (rather than
+                    # the data of this instance) determine whether to write.
+                    blob = cached_data["contents"]
 
                     # If the contents have not been changed since the initial read,
                     # we don't need to rewrite it.
